@@ -14,6 +14,7 @@ class Storage:
         self.events = []
         self.seq = 0
         self.on_fetch = None        # callable(kind, tag, ids, key) -> may raise (fault) or yield (scheduler)
+        self.last_sub = False
         self.counts = {}
 
     def event(self, *a):
@@ -54,6 +55,7 @@ class SimReader(AbstractReader):
         if isinstance(traces, range):
             traces = list(traces)
         ids = self._ids[traces]
+        self._storage.last_sub = getattr(self, '_sub', False)     # read through a sub-set (ths[slice]: a batch) or through the whole set (a probe)
         self._storage.fetch('samples', self._tag, ids)
         if len(ids) and np.array_equal(ids, np.arange(ids[0], ids[0] + len(ids))):
             r = self._samples[int(ids[0]):int(ids[0]) + len(ids)]      # a VIEW of the stored samples, as estraces' RAM reader gives: code that
@@ -76,7 +78,9 @@ class SimReader(AbstractReader):
 
     def __getitem__(self, key):
         super().__getitem__(key)
-        return SimReader(self._storage, self._samples, self._meta, self._tag, self._ids[key])
+        child = SimReader(self._storage, self._samples, self._meta, self._tag, self._ids[key])
+        child._sub = True
+        return child
 
     @property
     def metadatas_keys(self):
